@@ -212,6 +212,15 @@ fn sink_variant(sv: u64, seed: u64, buf: usize) -> SinkSpec {
         4 => {
             let n = rng.usize_below(21);
             let mut schedule = Vec::new();
+            // every fourth schedule of this variant starts, after a first partial accept, with a long burst of back-to-back
+            // interruptions (a retry loop with a cap gives up there; the sink accepts everything afterwards)
+            if seed % 4 == 1 {
+                schedule.push(Accept(3));
+                let burst = *rng.pick(&[99usize, 100, 101, 128, 255, 256, 257, 1000, 1024, 65_536]);
+                schedule.extend(std::iter::repeat(Interrupt).take(burst));
+                schedule.push(Accept(1));
+                schedule.extend(std::iter::repeat(Interrupt).take(burst / 2 + 1));
+            }
             for _ in 0..n {
                 schedule.push(match rng.below(5) {
                     0 => Interrupt,
@@ -789,6 +798,10 @@ impl Gen for String {
 }
 
 fn gen_vec_len(rng: &mut Rng) -> usize {
+    // one vector in a few thousand is longer than 2^16 elements (element-count thresholds, as opposed to byte thresholds)
+    if rng.chance(1, 3000) {
+        return *rng.pick(&[65_535usize, 65_536, 65_537, 70_001, 131_073]);
+    }
     match rng.below(20) {
         0 | 1 => 0,
         2..=4 => 1,
